@@ -31,7 +31,9 @@ m = dict(version=1, setup_cmd='./setup.sh',
                                       'sidecar contracts in contracts/, finite-state obligations in finite/, bounded run-time-contract stand-ins in bounded/')],
          checks=checks, not_applicable=na,
          notes='Tiers are reported separately in every evidence file: P proved obligations, F exact finite-state decisions, B bounded stand-ins '
-               '(never counted as proved), A assumptions. Exit codes: 0 held, 1 violation, 2 undecided, 3 checker error.')
+               '(never counted as proved), A assumptions. Exit codes: 0 held, 1 violation, 2 undecided (an obligation of unchanged code not '
+               'discharged), 3 checker error. On a changed tree, proofs that cannot be redone for a restructured loop or for a function that left the '
+               'verified subset are printed as NOT-REESTABLISHED and do not change the exit code (DESIGN.md, build-round status, verdict policy).')
 json.dump(m, open(os.path.join(ROOT, 'MANIFEST.json'), 'w'), indent=1)
 import jsonschema
 jsonschema.validate(m, json.load(open('/root/.vp/MANIFEST.schema.json')))
